@@ -2681,6 +2681,11 @@ where
 
         match v3_1_1::Connack::parse(raw_packet.data_as_slice()) {
             Ok((packet, _consumed)) => {
+                if self.status == ConnectionStatus::Connected {
+                    // A second CONNACK on an established connection is a protocol violation
+                    Self::handle_v3_1_1_error(MqttError::ProtocolError, &mut events);
+                    return events;
+                }
                 if packet.return_code() == ConnectReturnCode::Accepted {
                     self.status = ConnectionStatus::Connected;
                     if packet.session_present() {
@@ -2709,6 +2714,11 @@ where
 
         match v5_0::Connack::parse(raw_packet.data_as_slice()) {
             Ok((packet, _consumed)) => {
+                if self.status == ConnectionStatus::Connected {
+                    // A second CONNACK on an established connection is a protocol violation
+                    self.handle_v5_0_error(MqttError::ProtocolError, &mut events);
+                    return events;
+                }
                 if packet.reason_code() == ConnectReasonCode::Success {
                     self.status = ConnectionStatus::Connected;
 
